@@ -177,19 +177,25 @@ impl CacheRead {
     }
 
     /// Get the stdout from this cache entry, if it exists.
-    pub fn get_stdout(&mut self) -> Vec<u8> {
+    pub fn get_stdout(&mut self) -> Result<Vec<u8>> {
         self.get_bytes("stdout")
     }
 
     /// Get the stderr from this cache entry, if it exists.
-    pub fn get_stderr(&mut self) -> Vec<u8> {
+    pub fn get_stderr(&mut self) -> Result<Vec<u8>> {
         self.get_bytes("stderr")
     }
 
-    fn get_bytes(&mut self, name: &str) -> Vec<u8> {
+    /// Empty output is never stored, so a missing member means "no output".
+    /// A member that is present but cannot be read back means the entry is
+    /// corrupt, which must not be mistaken for empty output.
+    fn get_bytes(&mut self, name: &str) -> Result<Vec<u8>> {
+        if !self.zip.file_names().any(|n| n == name) {
+            return Ok(Vec::new());
+        }
         let mut bytes = Vec::new();
-        drop(self.get_object(name, &mut bytes));
-        bytes
+        self.get_object(name, &mut bytes)?;
+        Ok(bytes)
     }
 
     pub async fn extract_objects<T>(
